@@ -17,7 +17,7 @@ SIZES = (0, 1, 700, 1024, 1025, 2047, 2048, 2049, 5000, 70000)
 NAMES = ["a", "b", "A", "é.txt"]
 
 
-def _mk_providers(repo, tmp):
+def _mk_providers(repo, tmp, with_fs=True):
     from cloudsync.providers.mock import MockProvider
     provs = []
     for oip in (False, True):
@@ -25,6 +25,8 @@ def _mk_providers(repo, tmp):
             p = MockProvider(oip, cs)
             p.connect(p._test_creds)
             provs.append(("mock(oid_is_path=%s,case_sensitive=%s)" % (oip, cs), p, "/"))
+    if not with_fs:
+        return provs
     try:
         from cloudsync.providers.filesystem import FileSystemProvider
         fp = FileSystemProvider()
@@ -256,6 +258,60 @@ def _apply(p, model, op, exc_types):
     return None
 
 
+def _run_chunk(arg):
+    repo, tmp_root, wid, seqs, offset = arg
+    E = {"exists": "CloudFileExistsError", "notfound": "CloudFileNotFoundError", "name": "CloudFileNameError"}
+    failures, evaluations, distinct = [], 0, set()
+    seen_fail = set()
+    for si, seq in enumerate(seqs):
+        d = os.path.join(tmp_root, "w%d_s%d" % (wid, si))
+        os.makedirs(d)
+        for name, p, _ in _mk_providers(repo, d, with_fs=(si % 16 == 0)):
+            if p is None:
+                continue
+            model = {}
+            if name.startswith("mock"):
+                list(p.events())           # drain
+            for k, op in enumerate(seq):
+                evaluations += 1
+                try:
+                    before_ids = {v[1] for v in _tree(p).values()} if name.startswith("mock") else None
+                    msg = _apply(p, model, op, E)
+                    if msg is None:
+                        msg = _check_consistency(name, p, model, op)
+                    if msg is None and before_ids is not None:
+                        after_ids = {v[1] for v in _tree(p).values()}
+                        evs = list(p.events())
+                        def under(anc, x):
+                            # ids of a path-style provider are paths: what lies below a renamed folder moves with it
+                            # and is covered by the folder's own rename event
+                            return p.oid_is_path and anc is not None and x is not None and bool(p.is_subpath(anc, x, strict=True))
+                        for gone in before_ids - after_ids:
+                            if not any((e.oid == gone and e.exists is False) or getattr(e, "prior_oid", None) == gone
+                                       or under(getattr(e, "prior_oid", None), gone) for e in evs):
+                                msg = "object id %r stopped existing but the event stream never reported it (events: %s)" % (
+                                    gone, [(e.oid, e.exists) for e in evs])
+                        for new in after_ids - before_ids:
+                            if not any(e.exists is not False and (e.oid == new or (getattr(e, "prior_oid", None) and under(e.oid, new))) for e in evs):
+                                msg = "object id %r started to exist but the event stream never reported it (events: %s)" % (
+                                    new, [(e.oid, e.exists) for e in evs])
+                except Exception as e:
+                    msg = "harness observed %s: %s" % (type(e).__name__, str(e)[:100])
+                if msg is not None:
+                    key = (name, op[0], msg[:30])
+                    if key not in seen_fail:
+                        seen_fail.add(key)
+                        failures.append((key, {"what": "%s: after %s: %s" % (name, [o[:2] for o in seq[:k + 1]], msg),
+                                         "witness": {"provider": name, "ops": [list(map(lambda x: x.hex() if isinstance(x, bytes) else x, o)) for o in seq[:k + 1]],
+                                                     "law": "reference-tree", "op": op[0],
+                                                     "rename_into_own_subtree": bool(op[0] == "rename" and "succeeded, an error was expected" in msg)},
+                                         "replay_data": {"provider": name, "message": msg}}))
+                    break
+            distinct.add((name, tuple(o[0] for o in seq)))
+        shutil.rmtree(d, ignore_errors=True)
+    return failures, evaluations, distinct
+
+
 def run(repo, tier, seed):
     if repo not in sys.path:
         sys.path.insert(0, repo)
@@ -267,8 +323,8 @@ def run(repo, tier, seed):
     distinct = set()
     E = {"exists": "CloudFileExistsError", "notfound": "CloudFileNotFoundError", "name": "CloudFileNameError"}
     universe = _ops_universe()
-    depth = 2 if tier == "quick" else 3
-    n_random = 150 if tier == "quick" else 2500
+    depth = 3 if tier == "quick" else 4
+    n_random = 300 if tier == "quick" else 6000
     tmp_root = tempfile.mkdtemp(prefix="verif_prov_")
     try:
         # ---- hash law and identity check
@@ -302,67 +358,33 @@ def run(repo, tier, seed):
                 failures.append({"what": "connecting with credentials of a different identity was not refused (refused=%s connected=%s)" % (refused, p.connected),
                                  "witness": {"law": "identity-different"}, "replay_data": None})
             distinct.add(("identity", oip))
-        # ---- operation sequences against the reference tree
+        # ---- operation sequences against the reference tree (all cores: one chunk of sequences per worker)
         seqs = []
         for n in range(1, depth + 1):
             for seq in itertools.product(universe, repeat=n):
-                if n == 3 and rng.random() > 0.01:
-                    continue
-                if n == 2 and tier == "quick" and rng.random() > 0.5:
+                if n == 4 and rng.random() > 0.02:
                     continue
                 seqs.append(seq)
         for _ in range(n_random):
-            seqs.append(tuple(rng.choice(universe) for _ in range(rng.randint(3, 7))))
+            seqs.append(tuple(rng.choice(universe) for _ in range(rng.randint(4, 8))))
+        nproc = min(16, os.cpu_count() or 1)
+        chunks = [(repo, tmp_root, w, seqs[w::nproc], w) for w in range(nproc)]
+        import multiprocessing as mp
+        with mp.get_context("fork").Pool(nproc) as pool:
+            parts = pool.map(_run_chunk, chunks)
         seen_fail = set()
-        for si, seq in enumerate(seqs):
-            d = os.path.join(tmp_root, "s%d" % si)
-            os.makedirs(d)
-            for name, p, _ in _mk_providers(repo, d):
-                if p is None:
-                    continue
-                if name == "filesystem" and si % 4 != 0:
-                    continue
-                model = {}
-                if name.startswith("mock"):
-                    list(p.events())           # drain
-                for k, op in enumerate(seq):
-                    evaluations += 1
-                    try:
-                        before_ids = {v[1] for v in _tree(p).values()} if name.startswith("mock") else None
-                        msg = _apply(p, model, op, E)
-                        if msg is None:
-                            msg = _check_consistency(name, p, model, op)
-                        if msg is None and before_ids is not None:
-                            after_ids = {v[1] for v in _tree(p).values()}
-                            evs = list(p.events())
-                            for gone in before_ids - after_ids:
-                                if not any((e.oid == gone and e.exists is False) or getattr(e, "prior_oid", None) == gone for e in evs):
-                                    msg = "object id %r stopped existing but the event stream never reported it (events: %s)" % (
-                                        gone, [(e.oid, e.exists) for e in evs])
-                            for new in after_ids - before_ids:
-                                if not any(e.oid == new and e.exists is not False for e in evs):
-                                    msg = "object id %r started to exist but the event stream never reported it (events: %s)" % (
-                                        new, [(e.oid, e.exists) for e in evs])
-                    except Exception as e:
-                        msg = "harness observed %s: %s" % (type(e).__name__, str(e)[:100])
-                    if msg is not None:
-                        key = (name, op[0], msg[:30])
-                        if key not in seen_fail:
-                            seen_fail.add(key)
-                            failures.append({"what": "%s: after %s: %s" % (name, [o[:2] for o in seq[:k + 1]], msg),
-                                             "witness": {"provider": name, "ops": [list(map(lambda x: x.hex() if isinstance(x, bytes) else x, o)) for o in seq[:k + 1]],
-                                                         "law": "reference-tree", "op": op[0],
-                                                         "rename_into_own_subtree": bool(op[0] == "rename" and "succeeded, an error was expected" in msg)},
-                                             "replay_data": {"provider": name, "message": msg}})
-                        break
-                distinct.add((name, tuple(o[0] for o in seq)))
-            if len(samples) < 3:
-                samples.append([o[:2] for o in seq])
-            shutil.rmtree(d, ignore_errors=True)
+        for fl, ev, dis in parts:
+            evaluations += ev
+            distinct |= dis
+            for key, f in fl:
+                if key not in seen_fail:
+                    seen_fail.add(key)
+                    failures.append(f)
+        samples = [[o[:2] for o in seq] for seq in seqs[:3]]
     finally:
         shutil.rmtree(tmp_root, ignore_errors=True)
-    return {"name": "providers_vs_reference_tree", "bound": "hash law for sizes %s on 5 providers; identity check; all sequences of <= %d calls (%s) over %d operations and %d random sequences of 3-7 calls on 4 mock flavours (every 4th also on the filesystem provider)"
-            % (list(SIZES), depth, "50% sample of length 2" if tier == "quick" else "1% sample of length 3", len(universe), n_random),
+    return {"name": "providers_vs_reference_tree", "bound": "hash law for sizes %s on 5 providers; identity check; all sequences of <= %d calls (%s) over %d operations and %d random sequences of 4-8 calls on 4 mock flavours (every 16th also on the filesystem provider)"
+            % (list(SIZES), depth, "exhaustive" if tier == "quick" else "lengths 1-3 exhaustive, 2% sample of length 4", len(universe), n_random),
             "evaluations": evaluations, "distinct_nontrivial": len(distinct), "exhaustive": False,
             "rule": "operation sequences compared call by call with a reference tree; distinct = distinct (provider, op-kind sequence)",
             "samples": samples, "failures": failures}
